@@ -409,6 +409,10 @@ def special_items():
     yield Item(["Deref", "DerefMut", "AsRef", "AsMut", "From", "Constructor"], "pub struct @N@<T: ?::core::marker::Sized>(::std::boxed::Box<T>);", ("special", "boxed-unsized", "T:?Sized", "plain", "-"))
     yield Item(["Deref"], "#[deref(forward)]\npub struct @N@<T: ?::core::marker::Sized>(::std::boxed::Box<T>);", ("special", "boxed-unsized", "T:?Sized", "plain", "forward"))
     yield Item(["Display"], '#[display("{}", _0)]\npub struct @N@<\'a, T: ?::core::marker::Sized>(&\'a T);', ("special", "ref-unsized", "'a,T:?Sized", "plain", "attr"))
+    # unions: Display-like derives with a format attribute (the only documented union support)
+    for tr in DISPLAY_LIKE:
+        yield Item([tr], '#[%s("union text")]\npub union @N@ { a: u8, b: u16 }' % ATTR_OF[tr], ("special", "union", "none", "plain", tr))
+    yield Item(["Display"], '#[display("{}", 1 + 2)]\npub union @N@<T: ::core::marker::Copy> { a: T, b: u16 }', ("special", "union", "T", "plain", "Display+arg"))
     # unsized fields with explicit AsRef targets (run-time glue in src/as.rs must accept `?Sized`)
     yield Item(["AsRef"], "#[as_ref([u8])]\npub struct @N@(str);", ("special", "unsized-field", "none", "plain", "as_ref-types"))
     yield Item(["AsRef"], "#[as_ref([u8], ::std::path::Path)]\npub struct @N@(str);", ("special", "unsized-field", "none", "plain", "as_ref-types2"))
